@@ -3562,7 +3562,24 @@ func (e *Env) returnAlternatives(sel func(*ssa.Return) bool, why string, assume 
 			}
 			fs := append([]Fact{}, e.factsAt(r.Block(), r, as2)...)
 			fs = append(fs, e.tailCallFacts(r)...)
-			sets = append(sets, fs)
+			// one return behind optional steps (`if needed { check }` … `return x, nil`): one alternative per way through the
+			// function, each with what its own branches establish (loop-free functions with few ways only)
+			if paths := e.successPaths(r, assume); len(paths) >= 2 {
+				ef := e.EdgeFactsUnder(assume)
+				for _, path := range paths {
+					pf := append([]Fact{}, fs...)
+					for _, ed := range path {
+						for _, f := range ef[ed] {
+							if !e.killedBetween(f, []edge{ed}, r.Block(), r) {
+								pf = append(pf, f)
+							}
+						}
+					}
+					sets = append(sets, pf)
+				}
+			} else {
+				sets = append(sets, fs)
+			}
 		}
 		for _, fs0 := range sets {
 			m := map[string]Fact{}
@@ -3600,6 +3617,80 @@ func (e *Env) returnAlternatives(sel func(*ssa.Return) bool, why string, assume 
 		return nil
 	}
 	return alts
+}
+
+// successPaths: the ways from the entry to the return, as edge lists, leaving out edges that end in an error, that are
+// infeasible or that contradict the assumptions; nil when the function has a cycle on the way, fewer than two or more than eight
+// ways, or no branch that carries a fact of its own.
+func (e *Env) successPaths(r *ssa.Return, assume []Fact) [][]edge {
+	fn := e.Fn
+	if len(fn.Blocks) > 60 {
+		return nil
+	}
+	cut := errorEdges(r)
+	ef := e.EdgeFactsUnder(assume)
+	for ed, fs := range ef {
+		for _, f := range fs {
+			if f.Lin && f.LE.isConst() && f.LE.k < 0 {
+				cut[ed] = true
+			}
+			for _, a := range assume {
+				if contradicts(f, a) {
+					cut[ed] = true
+				}
+			}
+		}
+	}
+	target := r.Block()
+	// blocks from which the return is reachable
+	canReach := map[*ssa.BasicBlock]bool{target: true}
+	for changed := true; changed; {
+		changed = false
+		for _, b := range fn.Blocks {
+			if canReach[b] {
+				continue
+			}
+			for _, s := range b.Succs {
+				if canReach[s] && !cut[edge{b, s}] {
+					canReach[b] = true
+					changed = true
+				}
+			}
+		}
+	}
+	var out [][]edge
+	onPath := map[*ssa.BasicBlock]bool{}
+	cyclic, tooMany := false, false
+	var walk func(b *ssa.BasicBlock, path []edge)
+	walk = func(b *ssa.BasicBlock, path []edge) {
+		if cyclic || tooMany {
+			return
+		}
+		if b == target {
+			out = append(out, append([]edge{}, path...))
+			if len(out) > 8 {
+				tooMany = true
+			}
+			return
+		}
+		onPath[b] = true
+		defer delete(onPath, b)
+		for _, s := range b.Succs {
+			if cut[edge{b, s}] || !canReach[s] {
+				continue
+			}
+			if onPath[s] {
+				cyclic = true
+				return
+			}
+			walk(s, append(path, edge{b, s}))
+		}
+	}
+	walk(fn.Blocks[0], nil)
+	if cyclic || tooMany || len(out) < 2 {
+		return nil
+	}
+	return out
 }
 
 // decidingFacts: what the branch pb -> blk says about values that cannot change inside this function (parameters and values
